@@ -1532,3 +1532,78 @@ Qed.
 Lemma extref_types_with_counterpart :
   length (filter extref_type_rt ExternalReference_ExternalReferenceType_values) = 39%nat.
 Proof. vm_compute. reflexivity. Qed.
+
+
+(* ---- statements used verbatim by the property files ------------------------------------------------ *)
+Theorem cdx_every_node_once d b : cdx_ser d = Ok b ->
+  forall nl root, d_node_list d = Some nl -> nl_root_elements nl = [root] ->
+  b_components b = map clear_auto (cdx_forest nl root) /\
+  Permutation (flat_map refs (cdx_forest nl root)) (filter (fun i => negb (String.eqb i root)) (dedup (ids nl))) /\
+  option_map c_ref (b_meta_comp b) = Some root.
+Proof.
+  intros H nl root Enl Er.
+  destruct (cdx_ser_shape d b H) as [md [nl' [_ [Enl' [[Er' _]|[root' [rn [Er' [_ [_ [Hto [Ec [_ Em]]]]]]]]]]]]];
+    rewrite Enl in Enl'; injection Enl' as <-; rewrite Er in Er'; [discriminate|injection Er' as <-].
+  split; [exact Ec|]. split; [|exact Em].
+  apply forest_exactly_once. intros e He Ht x Hx. exact (Hto e He (or_introl Ht) x Hx).
+Qed.
+
+Theorem cdx_nesting_is_containment d b : cdx_ser d = Ok b ->
+  forall nl root p x, d_node_list d = Some nl -> nl_root_elements nl = [root] ->
+  In (p, x) (flat_map pairs (cdx_forest nl root)) ->
+  exists e, In e (nl_edges nl) /\ e_type e = Edge_Type_contains /\ e_from e = p /\ In x (e_to e).
+Proof.
+  intros H nl root p x Enl Er Hp.
+  destruct (cdx_ser_shape d b H) as [md [nl' [_ [Enl' [[Er' _]|[root' [rn [Er' [_ [_ [Hto _]]]]]]]]]]];
+    rewrite Enl in Enl'; injection Enl' as <-; rewrite Er in Er'; [discriminate|injection Er' as <-].
+  apply (forest_pairs_are_contains_edges nl root p x); [|exact Hp].
+  intros e He Ht y Hy. exact (Hto e He (or_introl Ht) y Hy).
+Qed.
+
+Theorem cdx_read_graph_well_formed b : wf (cdx_unser_nl b) /\ forall i, In i (ids (cdx_unser_nl b)) -> i <> "".
+Proof. split; [apply cdx_unser_wf|apply cdx_unser_ids_nonempty]. Qed.
+
+Theorem cdx_licence_none_or_one n cc :
+  (n_licenses n = [] -> n_licenses (comp_to_node (node_to_comp n) cc) = []) /\
+  (forall l, n_licenses n = [l] -> l <> "" -> n_licenses (comp_to_node (node_to_comp n) cc) = [l]).
+Proof. split; [apply cdx_no_licence|apply cdx_single_licence]. Qed.
+
+Theorem cdx_identifiers_origin b i : In i (ids (cdx_unser_nl b)) ->
+  exists c cc, i = (if String.eqb (c_ref c) "" then auto_id cc else c_ref c).
+Proof.
+  apply (cdx_unser_ids (fun i => exists c cc, i = (if String.eqb (c_ref c) "" then auto_id cc else c_ref c))).
+  intros c cc. exists c, cc. reflexivity.
+Qed.
+
+Theorem spdx_ser_total fmt_time self d : spdx_ser fmt_time self d = Err \/ exists s, spdx_ser fmt_time self d = Ok s.
+Proof.
+  unfold spdx_ser. destruct (d_metadata d); [|left; reflexivity].
+  destruct (d_node_list d); [right; eexists; reflexivity|left; reflexivity].
+Qed.
+
+Theorem spdx_ser_ok_iff fmt_time self d :
+  (exists s, spdx_ser fmt_time self d = Ok s) <-> d_metadata d <> None /\ d_node_list d <> None.
+Proof.
+  unfold spdx_ser. destruct (d_metadata d), (d_node_list d); split.
+  - intros _. split; discriminate.
+  - intros _. eexists. reflexivity.
+  - intros [s H]. discriminate.
+  - intros [_ H]. contradiction.
+  - intros [s H]. discriminate.
+  - intros [H _]. contradiction.
+  - intros [s H]. discriminate.
+  - intros [H _]. contradiction.
+Qed.
+
+Definition run_history (ds : list document) : list (result cbom) := map cdx_ser ds.
+Theorem cdx_history_independent h1 h2 d : last (run_history (h1 ++ [d])) Err = last (run_history (h2 ++ [d])) Err.
+Proof. unfold run_history. rewrite !map_app. cbn [map]. rewrite !last_last. reflexivity. Qed.
+
+Theorem lic_entries_without_object ls :
+  lic_list (ls ++ [ {| cl_expression := ""; cl_has_license := false; cl_id := "whatever" |} ]) = lic_list ls /\
+  lic_string ({| cl_expression := ""; cl_has_license := false; cl_id := "whatever" |} :: ls) = lic_string ls.
+Proof.
+  split.
+  - unfold lic_list. rewrite filter_app. cbn [filter cl_expression cl_has_license String.eqb negb andb orb]. rewrite app_nil_r. reflexivity.
+  - reflexivity.
+Qed.
